@@ -1,6 +1,7 @@
 import GqlProofs.ExecBasic
 import GqlProofs.ExecConforms
 import GqlProofs.ExecChecker
+import GqlProofs.ExecCheckerComplete
 import GqlProofs.ExecExample
 import GqlProofs.ExecErr
 import GqlProofs.ExecRoot
@@ -69,11 +70,26 @@ theorem leaf_position_legal (c : Ctx) (n : String) (nodes : List FieldNode) (v :
     | some td => cases td <;> simp [hf] at hl ha
 
 /-- the checker the driver runs on the real executor's data is sound for the specification -/
-theorem checker_sound (s : Schema) (doc : Document) (opName : String) (inputs : Vars) (data : List (String × JVal))
-    (h : conformsData s doc opName inputs data = true) :
-    ∃ c root sel, requestCtx s doc opName inputs default = some (c, root, sel) ∧
+theorem checker_sound (s : Schema) (doc : Document) (opName : String) (inputs : Vars) (w : World)
+    (data : List (String × JVal)) (h : conformsData s doc opName inputs w data = true) :
+    ∃ c root sel, requestCtx s doc opName inputs w = some (c, root, sel) ∧
       FieldsConform c root (rootGroups c root sel) data :=
-  conformsData_sound s doc opName inputs data h
+  conformsData_sound s doc opName inputs w data h
+
+/-- …and complete with the fuel the driver uses: the checker's verdict on the real executor's data IS `FieldsConform`
+(for the request's context) — a `false` verdict means the data does not conform. -/
+theorem checker_iff (s : Schema) (doc : Document) (opName : String) (inputs : Vars) (w : World)
+    (data : List (String × JVal)) (c : Ctx) (root : String) (sel : SelectionSet)
+    (hc : requestCtx s doc opName inputs w = some (c, root, sel)) :
+    conformsData s doc opName inputs w data = true ↔ FieldsConform c root (rootGroups c root sel) data := by
+  constructor
+  · intro h
+    obtain ⟨c', root', sel', hc', hf⟩ := conformsData_sound s doc opName inputs w data h
+    rw [hc] at hc'
+    simp only [Option.some.injEq, Prod.mk.injEq] at hc'
+    obtain ⟨rfl, rfl, rfl⟩ := hc'
+    exact hf
+  · exact conformsData_complete s doc opName inputs w data c root sel hc
 
 /-- data holds exactly the selected response keys whose field the root type defines, in the order of the groups -/
 theorem data_keys_are_selected_keys (s : Schema) (doc : Document) (opName : String) (inputs : Vars) (w : World) (fuel : Nat)
@@ -229,7 +245,7 @@ theorem data_none_has_nonnull_root_cause (s : Schema) (doc : Document) (opName :
 open Ex in
 /-- the hypothesis of `response_conforms` is satisfiable: the example yields data with a nulled list item
 (string / out-of-range integer under `[Int]`) and a nulled object (`w`, its non-null `x` failed) -/
-example : (obsData (execute schema doc "Q" varsF world 50)).map (fun d => (d.map (·.1), conformsData schema doc "Q" varsF d))
+example : (obsData (execute schema doc "Q" varsF world 50)).map (fun d => (d.map (·.1), conformsData schema doc "Q" varsF world d))
     = some (["a", "b", "o", "w", "n"], true) := by decide +kernel
 
 open Ex in
@@ -237,15 +253,15 @@ example : obsErrs (execute schema doc "Q" varsF world 50) = ["w.x"] := by decide
 
 open Ex in
 /-- the checker is not trivially true: a null in the non-null position `a`, a string under Int, an unselected key -/
-example : conformsData schema doc "Q" varsF [("a", .null)] = false
-    ∧ conformsData schema doc "Q" varsF [("a", .str "7")] = false
-    ∧ conformsData schema doc "Q" varsF [("a", .int 5000000000)] = false
-    ∧ conformsData schema doc "Q" varsF [("zz", .int 1)] = false
-    ∧ conformsData schema doc "Q" varsT [("w", .null)] = false
-    ∧ conformsData schema doc "Q" varsF [("w", .obj [("x", .null)])] = false
-    ∧ conformsData schema doc "Q" varsF [("n", .obj [("__typename", .str "Query")])] = false
-    ∧ conformsData schema doc "Q" varsF [("b", .int 1)] = false
-    ∧ conformsData schema doc "Q" varsF [("b", .list [.int 1, .null]), ("w", .obj [("x", .str "s")])] = true := by
+example : conformsData schema doc "Q" varsF world [("a", .null)] = false
+    ∧ conformsData schema doc "Q" varsF world [("a", .str "7")] = false
+    ∧ conformsData schema doc "Q" varsF world [("a", .int 5000000000)] = false
+    ∧ conformsData schema doc "Q" varsF world [("zz", .int 1)] = false
+    ∧ conformsData schema doc "Q" varsT world [("w", .null)] = false
+    ∧ conformsData schema doc "Q" varsF world [("w", .obj [("x", .null)])] = false
+    ∧ conformsData schema doc "Q" varsF world [("n", .obj [("__typename", .str "Query")])] = false
+    ∧ conformsData schema doc "Q" varsF world [("b", .int 1)] = false
+    ∧ conformsData schema doc "Q" varsF world [("b", .list [.int 1, .null]), ("w", .obj [("x", .str "s")])] = true := by
   decide +kernel
 
 open Ex in
